@@ -1276,6 +1276,10 @@ func newWSPair(o sess.Opts) (*sess.Pair, error) {
 	return &sess.Pair{S: s, Lib: lib, Peer: peer, Opts: o}, nil
 }
 
+// leftBehind holds the goroutines that earlier cases of this child process left
+// parked for good (a child runs one case at a time).
+var leftBehind = map[string]bool{}
+
 // Run executes one scenario and judges it.
 func Run(c *core.Case, sc Scenario) {
 	c.Sample(sc)
@@ -1305,7 +1309,6 @@ func Run(c *core.Case, sc Scenario) {
 	// watchdog, whose firing decides nothing.
 	var serveErr error
 	var panicked bool
-	before := stall.Snapshot(nil)
 	done := make(chan struct{})
 	go func() {
 		defer close(done)
@@ -1319,9 +1322,10 @@ func Run(c *core.Case, sc Scenario) {
 		defer func() { p.Peer.Close(); p.Lib.Close() }()
 		if quiescent {
 			for _, pk := range stall.Check(nil, 0) {
-				if _, old := before[pk.ID]; old {
+				if leftBehind[pk.ID] {
 					continue // left behind by an earlier case of this child
 				}
+				leftBehind[pk.ID] = true
 				c.Violate(stall.Key(pk), "all of the input (%d top-level elements, then the end of the stream) is in the transport and nothing moves, but Serve does not return: a library goroutine stays parked\ninput: %s\nwritten so far: %s\n%s", len(st.exp), input, p.Lib.Written(), pk.Stack)
 				return
 			}
